@@ -11,7 +11,7 @@ CACHE = os.path.join(VERIF, '.cache')
 GOENV = dict(os.environ, PATH='/opt/veriftools/go1.26.8/bin:' + os.environ.get('PATH', ''), GOTOOLCHAIN='local',
              GOFLAGS='-mod=mod', GOPROXY='off', GOSUMDB='off')
 
-ROOTS = './actions,./services,./filter,./faults,./internal/sqltypes,./parse,./grpc,./ent'
+ROOTS = './actions,./services,./filter,./faults,./internal/sqltypes,./parse,./grpc,./ent,./ent/schema'
 FOLLOW = ['go.6river.tech/mmmbbb/']
 
 
@@ -41,7 +41,7 @@ def load_program(extra=(), follow=(), key='main'):
     """export SSA from the current /repo tree (cached by content hash of its .go files)"""
     os.makedirs(CACHE, exist_ok=True)
     h = repo_hash()
-    tag = hashlib.sha256(('|'.join(sorted(extra)) + '#' + '|'.join(sorted(follow))).encode()).hexdigest()[:8]
+    tag = hashlib.sha256(('|'.join(sorted(extra)) + '#' + '|'.join(sorted(follow)) + '#' + ROOTS + '#' + open(os.path.join(VERIF, 'ssaexport', 'main.go')).read()).encode()).hexdigest()[:8]
     out = os.path.join(CACHE, 'ssa-%s-%s-%s.json' % (key, h, tag))
     if not os.path.exists(out):
         exe = ensure_exporter()
@@ -100,6 +100,8 @@ class Check:
         self.replayed = 0
         self.modelgaps = []
         self.trusted = set()
+        self.no_replay = bool(os.environ.get('VERIF_NO_REPLAY'))
+        self.jobs = int(os.environ.get('VERIF_JOBS', '0') or 0) or min(16, os.cpu_count() or 1)
         kf = os.path.join(VERIF, 'known_findings.json')
         self.known_findings = json.load(open(kf)) if os.path.exists(kf) else {'findings': []}
 
@@ -108,7 +110,7 @@ class Check:
         return self.tier == 'thorough'
 
     # ---- running one obligation
-    def run(self, name, prog, harness, bounds=None, intr=None, pats=None, setup=None, merge=None, **xopts):
+    def run(self, name, prog, harness, bounds=None, intr=None, pats=None, setup=None, merge=None, pre_run=None, parallel=True, **xopts):
         """harness(ex, ob) explores paths; it calls ob.verify(ex, label, formula, ...)"""
         ob = Obligation(self, name, bounds or {})
         xp = Explorer(prog, intrinsics=dict(stdlib.INTR, **(intr or {})), patterns=list(pats or []) + stdlib.PATS, **xopts)
@@ -117,6 +119,8 @@ class Check:
         if merge:
             xp.merge_funcs |= set(merge)
         ob.xp = xp
+        if pre_run:
+            pre_run(ob)
 
         def on_path(ex, kind, info):
             ob.paths += 1
@@ -128,7 +132,10 @@ class Check:
                 ob.on_panic(ex, info)
         t0 = time.time()
         try:
-            xp.run(lambda ex: harness(ex, ob), on_path)
+            if self.jobs > 1 and parallel:
+                self.run_parallel(xp, ob, harness, on_path)
+            else:
+                xp.run(lambda ex: harness(ex, ob), on_path)
         except Exception as e:  # machinery failure: never an alarm
             ob.inconclusive.append('machinery error: %s' % (traceback.format_exc(limit=6),))
         ob.wall = time.time() - t0
@@ -153,6 +160,95 @@ class Check:
         print('[%s] %-46s paths=%d checks=%d reach=%d %.1fs %s' % (self.prop, name, ob.paths, ob.discharged, ob.reach, ob.wall, status))
         sys.stdout.flush()
         return ob
+
+    def run_parallel(self, xp, ob, harness, on_path):
+        """process-forking exploration (see core.ForkCtx): every path runs in its own process from its fork point"""
+        import pickle, tempfile, shutil
+        tmpd = tempfile.mkdtemp(prefix='verif-fork-', dir='/dev/shm' if os.path.isdir('/dev/shm') else None)
+        import atexit
+        root_pid = os.getpid()
+        atexit.register(lambda: os.getpid() == root_pid and shutil.rmtree(tmpd, ignore_errors=True))
+        chk = self
+
+        def reset():
+            ob.paths = ob.discharged = ob.reach = ob.nqueries = 0
+            ob.solver_time = 0.0
+            ob.violations, ob.inconclusive = [], []
+            if hasattr(ob, 'witnesses'):
+                ob.witnesses = []
+            ob.seen_cex = set()
+            chk.known, chk.modelgaps, chk.replayed = [], [], 0
+            xp.nqueries, xp.solver_time, xp.unknowns = 0, 0.0, 0
+            xp.stats = {k: 0 for k in xp.stats}
+            xp.executed.clear()
+            xp.unsupported = {}
+            xp.fork_sites = {}
+        fc = ForkCtx(self.jobs, xp.max_paths, reset)
+        xp.fork_ctx = fc
+        try:
+            xp.run(lambda ex: harness(ex, ob), on_path)
+        except BaseException:
+            if fc.is_child:
+                ob.inconclusive.append('machinery error: %s' % traceback.format_exc(limit=6))
+            else:
+                raise
+        finally:
+            fc.finish()
+            if fc.is_child:
+                code = 0
+                try:
+                    out = dict(paths=ob.paths, discharged=ob.discharged, reach=ob.reach, nq=ob.nqueries, st=ob.solver_time,
+                               xq=xp.nqueries, xst=xp.solver_time, unk=xp.unknowns, stats=xp.stats, executed=dict(xp.executed),
+                               unsupported=xp.unsupported, inconclusive=ob.inconclusive, fork_sites=xp.fork_sites,
+                               violations=[(v.obligation, v.label, v.model_desc, v.replay, v.reproduced) for v in ob.violations],
+                               witnesses=getattr(ob, 'witnesses', None), known=chk.known, modelgaps=chk.modelgaps, replayed=chk.replayed)
+                    with open(os.path.join(tmpd, '%d.pkl' % os.getpid()), 'wb') as f:
+                        pickle.dump(out, f)
+                except BaseException:
+                    code = 1
+                os._exit(code)
+        xp.fork_ctx = None
+        if fc.truncated.value:
+            xp.stats['truncated'] = fc.truncated.value
+        for fn in sorted(os.listdir(tmpd)):
+            try:
+                with open(os.path.join(tmpd, fn), 'rb') as f:
+                    out = pickle.load(f)
+            except Exception:
+                ob.inconclusive.append('a path worker left no result')
+                continue
+            ob.paths += out['paths']
+            ob.discharged += out['discharged']
+            ob.reach += out['reach']
+            ob.nqueries += out['nq']
+            ob.solver_time += out['st']
+            xp.nqueries += out['xq']
+            xp.solver_time += out['xst']
+            xp.unknowns += out['unk']
+            for k, v in out['stats'].items():
+                xp.stats[k] = xp.stats.get(k, 0) + v
+            for k, v in out['executed'].items():
+                xp.executed[k] = xp.executed.get(k, 0) + v
+            for k, v in out['unsupported'].items():
+                xp.unsupported[k] = xp.unsupported.get(k, 0) + v
+            for k, v in out['fork_sites'].items():
+                xp.fork_sites[k] = xp.fork_sites.get(k, 0) + v
+            for m in out['inconclusive']:
+                if len(ob.inconclusive) < 50:
+                    ob.inconclusive.append(m)
+            seen = set(v.label for v in ob.violations)
+            for (o, l, d, rp, rep) in out['violations']:
+                if l not in seen:
+                    seen.add(l)
+                    ob.violations.append(Violation(o, l, d, rp, rep))
+            if out['witnesses'] and hasattr(ob, 'witnesses'):
+                ob.witnesses += out['witnesses'][: max(0, 2 - len(ob.witnesses))]
+            for k in out['known']:
+                if k not in self.known:
+                    self.known.append(k)
+            self.modelgaps += out['modelgaps']
+            self.replayed += out['replayed']
+        shutil.rmtree(tmpd, ignore_errors=True)
 
     # ---- finishing
     def finish(self, level='model_checking', extra_cov=None):
@@ -243,6 +339,14 @@ class Obligation:
             self.inconclusive.append('solver unknown at assertion %s' % label)
             return True
         m = ex.solver.model()
+        small = ex.env.get('small_model')
+        if small:
+            # prefer a counterexample with small payloads so that it can be replayed
+            if ex.solver.check(zbool(neg), *small) == z3.sat:
+                m = ex.solver.model()
+            else:
+                self.inconclusive.append('counterexample for %s needs a payload too large to replay' % label)
+                return False
         desc = describe(m) if describe else {'model': str(m)[:2000]}
         # known findings: a finding is identified by (property, obligation prefix, label prefix, optional predicate id)
         for kf in self.chk.known_findings.get('findings', []):
